@@ -815,6 +815,329 @@ def shrink_case(case, fails, budget=24):
     return best
 
 
+
+# ---------------------------------------------------------------------------------------------
+# growth stage (M10): the per-frame behaviour of the real search is a behaviour of the step relation
+# of lean/SSVerif/Model/Search.lean (theorems: lean/SSVerif/Props/C01Search.lean)
+
+STEP_SHAPES = [
+    # (name, kind, text) — grammar shapes that are always part of the tie; generated ones are added
+    ("linear", "jsgf", "#JSGF V1.0;\ngrammar g;\npublic <top> = go forward ten meters;\n"),
+    ("opt_loops", "jsgf", "#JSGF V1.0;\ngrammar g;\npublic <top> = [ go ] ( forward | backward )+ ( ten | two | <NULL> )* [ meters ];\n"),
+    ("short_alt", "jsgf", "#JSGF V1.0;\ngrammar g;\npublic <top> = ( a | i | oh | the | to | either )* go ( a | to ) [ the ] forward;\n"),
+    ("rightrec", "jsgf", "#JSGF V1.0;\ngrammar g;\npublic <top> = <r> meters;\n<r> = go | forward <r> | ten <r>;\n"),
+    ("nullchain", "fsg", "FSG_BEGIN n\nNUM_STATES 5\nSTART_STATE 0\nFINAL_STATE 4\nTRANSITION 0 1 0.5\nTRANSITION 1 2 0.5\n"
+                         "TRANSITION 2 0 0.3\nTRANSITION 0 1 0.5 go\nTRANSITION 1 2 0.9 forward\nTRANSITION 2 3 1.0 ten\n"
+                         "TRANSITION 2 3 0.5\nTRANSITION 3 4 1.0 meters\nTRANSITION 3 3 0.2 a\nTRANSITION 1 4 0.01\nFSG_END\n"),
+    ("dense", "fsg", "FSG_BEGIN d\nNUM_STATES 3\nSTART_STATE 0\nFINAL_STATE 2\n" +
+                     "".join(f"TRANSITION {a} {b} 0.2 {w}\n" for a in range(3) for b in range(3)
+                             for w in (["go", "forward", "ten"] if (a + b) % 2 else ["meters", "a", "the(2)"])) + "FSG_END\n"),
+]
+
+STEP_FIELDS = ["lt", "consts", "pre", "start", "finish", "table"]
+
+
+def gen_step_case(rng, idx, thorough, feats):
+    """one decoder, one grammar, one or two short utterances"""
+    lang = "fr-fr" if (thorough and rng.chance(0.12)) else "en-us"
+    cfg = {}
+    if lang != "en-us":
+        cfg["hmm"] = str(MODEL / lang)
+    beam = ["default", "wide", "narrow", "verynarrow", "maxhmm", "default", "wide", "narrow"][idx % 8] if not thorough else \
+        rng.weighted([("default", 4), ("wide", 3), ("narrow", 3), ("verynarrow", 2), ("maxhmm", 2), ("zero", 1)])
+    if beam == "wide":
+        cfg.update(beam="1e-80", pbeam="1e-80", wbeam="1e-60")
+    elif beam == "zero":
+        cfg.update(beam="0", pbeam="0", wbeam="0")
+    elif beam == "narrow":
+        v = rng.choice(["1e-10", "1e-6", "1e-4"])
+        cfg.update(beam=v, pbeam=v, wbeam=rng.choice([v, "1e-3"]))
+    elif beam == "verynarrow":
+        v = rng.choice(["1e-2", "0.5", "1e-1"])
+        cfg.update(beam=v, pbeam=rng.choice([v, "1e-48"]), wbeam=rng.choice([v, "7e-29", "1"]))
+    elif beam == "maxhmm":
+        cfg["maxhmmpf"] = str(rng.choice([1, 3, 10, 50]))
+    for k, vals, p in (("fsgusefiller", ["no"], 0.15), ("fsgusealtpron", ["no"], 0.15), ("lw", ["1.0", "10", "0.5"], 0.2),
+                       ("wip", ["0.1", "1.0", "1e-4"], 0.2), ("pip", ["0.5", "1e-3"], 0.1), ("silprob", ["0.5", "1e-6"], 0.15),
+                       ("compallsen", ["yes"], 0.2)):
+        if rng.chance(p):
+            cfg[k] = rng.choice(vals)
+    if lang == "en-us" and idx < len(STEP_SHAPES):
+        shape, kind, text = STEP_SHAPES[idx]
+    else:
+        kind = rng.weighted([("jsgf", 3), ("fsg", 2)])
+        shape = "gen_" + kind
+        text = gen_jsgf(rng, lang, feats) if kind == "jsgf" else gen_fsg(rng, lang, feats)
+    maxs = 16000 if not thorough else rng.choice([16000, 16000, 30000, 48000])
+    utts = []
+    for _ in range(rng.weighted([(1, 3), (2, 2)])):
+        src = rng.choice(["goforward.raw", "goforward.raw", "goforward_fr.raw", "pizza-float32.raw"])
+        n = len(source_samples(src))
+        akind = rng.weighted([("head", 5), ("clip", 3), ("reverse", 1), ("noise", 1), ("tiny", 1)])
+        if akind == "head":
+            spec = [{"src": src, "a": 0, "b": min(n, rng.range(6000, maxs))}]
+        elif akind == "clip":
+            a = rng.below(max(1, n - 8000))
+            spec = [{"src": src, "a": a, "b": min(n, a + rng.range(5000, maxs))}]
+        elif akind == "reverse":
+            spec = [{"src": src, "a": 0, "b": min(n, rng.range(6000, maxs)), "rev": True}]
+        elif akind == "noise":
+            spec = [{"src": "zero", "b": rng.range(3000, 12000), "noise": rng.choice([3, 300, 3000]), "seed": rng.below(1 << 30)}]
+        else:
+            spec = [{"src": src, "a": 0, "b": rng.choice([1, 411, 571, 890, 1210])}]
+        utts.append({"audio": spec, "kind": akind})
+    return {"config": cfg, "lang": lang, "beam": beam, "shape": shape, "grammar": {"kind": kind, "text": text}, "utts": utts}
+
+
+def step_case_ops(case, scratch, tag):
+    ops = ["newdec loglevel=FATAL " + " ".join(f"{k}={v}" for k, v in sorted(case["config"].items()))]
+    g = case["grammar"]
+    if g["kind"] == "jsgf":
+        ops.append("jsgf " + hx(g["text"]))
+    else:
+        p = Path(scratch) / f"{tag}.fsg"
+        p.write_text(g["text"])
+        ops.append(f"fsgfile {p}")
+    for ti, t in enumerate(case["utts"]):
+        p = Path(scratch) / f"{tag}-t{ti}.raw"
+        b = render_audio(t["audio"])
+        if t.get("maxsamp") is not None:
+            b = b[:2 * t["maxsamp"]]
+        p.write_bytes(b)
+        ops.append(f"audio {p}")
+        ops.append(f"utt t{ti} {len(b) // 2}")
+    return ops
+
+
+def judge_step_output(hout, dout):
+    """-> (problems, infos): every utterance the harness dumped must pass every predicate of the model"""
+    probs, infos = [], []
+    ends = {}
+    for l in hout.split("\n"):
+        if l.startswith("U end "):
+            w = l.split()
+            ends[w[2]] = (int(w[3]), int(w[4]))
+        elif l.startswith("U fail"):
+            probs.append(("harness could not run the utterance", {"line": l}))
+    cur = None
+    blocks = []
+    for l in dout.split("\n"):
+        w = l.split()
+        if len(w) < 2 or w[0] != "R":
+            continue
+        if w[1] == "begin":
+            cur = {"tag": w[2] if len(w) > 2 else "?", "steps": [], "why": [], "cov": {}}
+        elif cur is None:
+            continue
+        elif w[1] == "end":
+            blocks.append(cur)
+            cur = None
+        elif w[1] == "step":
+            cur["steps"].append(w[2:])
+        elif w[1] in ("why", "whyeval"):
+            cur["why"].append(" ".join(w[1:])[:1500])
+        elif w[1] == "cov":
+            cur["cov"] = {k: int(v) for k, v in (x.split("=") for x in w[2:])}
+        else:
+            cur[w[1]] = w[2:]
+    if len(blocks) != len(ends):
+        probs.append(("model driver answered for a different number of utterances than the harness dumped",
+                      {"driver": len(blocks), "harness": len(ends)}))
+    for b in blocks:
+        T, nent = ends.get(b["tag"], (None, None))
+        info = {"tag": b["tag"], "frames": T, "entries": nent, "pnodes": int(b.get("lt", [0, 0, 0])[2]) if len(b.get("lt", [])) > 2 else 0,
+                "cov": b["cov"]}
+        infos.append(info)
+        for st in b["steps"]:
+            # frame stepRelB searchInvB indices quiet evalExact size active
+            if any(x != "1" for x in st[1:6]):
+                names = ["stepRelB", "searchInvB", "entry indices / table size", "pnode_active_next NULL and frame lists empty",
+                         "evalHist3 = the evaluated HMMs"]
+                failed = [n for n, x in zip(names, st[1:6]) if x != "1"]
+                probs.append(("the frame step of the real search is not a behaviour of the model: " + ", ".join(failed) + " false",
+                              {"utt": b["tag"], "after_frames": int(st[0]), "verdict": st[1:6], "why": b["why"][:2]}))
+                break
+        for f in STEP_FIELDS:
+            v = b.get(f)
+            if v is None:
+                probs.append((f"the driver gave no verdict `{f}`", {"utt": b["tag"]}))
+                continue
+            flags = v if f not in ("table",) else v[:1]
+            if f == "lt":
+                flags = [v[0], v[1], v[3]]
+            if f == "start":
+                flags = v[:4]
+            if any(x != "1" for x in flags):
+                what = {"lt": "LexTreeOK / every sibling chain ends / no multiplex HMM: false on the dumped lextree",
+                        "consts": "WORST_SCORE / SENSCR_SHIFT / TMAT_WORST_SCORE of the build differ from the generated constants",
+                        "pre": "the state before fsg_search_start is not all-cleared (an HMM outside the active lists is not cleared)",
+                        "start": "startRelB / searchInvB false on the state after fsg_search_start",
+                        "finish": "the state after fsg_search_finish is not the model's finish of the last state",
+                        "table": "the history table at the end differs from the entries dumped frame by frame"}[f]
+                probs.append((what, {"utt": b["tag"], "verdict": v}))
+        if "bad" in b:
+            probs.append(("dump not understood by the driver", {"utt": b["tag"], "bad": b["bad"]}))
+        if T is not None and len(b["steps"]) != T:
+            probs.append(("number of judged steps differs from the frames the harness searched", {"utt": b["tag"], "steps": len(b["steps"]), "frames": T}))
+    return probs, infos
+
+
+_step_bins = {}
+_step_lock = __import__("threading").Lock()
+
+
+def step_harness(scratch, flavor):
+    import shutil
+    with _step_lock:
+        return _step_harness_locked(scratch, flavor, shutil)
+
+
+def _step_harness_locked(scratch, flavor, shutil):
+    if flavor not in _step_bins or not Path(_step_bins[flavor]).exists():
+        for _ in range(5):
+            try:
+                src = vlib.build_harness("h_c01s", flavor=flavor)
+                dst = Path(scratch) / f"h_c01s-{flavor}"
+                shutil.copy2(src, dst)
+                _step_bins[flavor] = dst
+                break
+            except FileNotFoundError:
+                continue
+        else:
+            raise vlib.BuildError(f"harness h_c01s ({flavor}) vanished from the build cache repeatedly")
+    return _step_bins[flavor]
+
+
+def run_step_case(case, scratch, tag):
+    import subprocess
+    ops = step_case_ops(case, scratch, tag)
+    hmm = case["config"].get("hmm", str(MODEL / "en-us"))
+    rc, out, err = vlib.run_bin(step_harness(scratch, "asan"), [hmm], stdin_text="\n".join(ops) + "\n", timeout=900)
+    died = None
+    if rc != 0:
+        died = next((name for name, sig in RERUN_SIGNATURES if sig in err), None)
+        if died:    # the search lost every active HMM / NaN features: judged on the plain flavour, as in run_case
+            rc, out, err = vlib.run_bin(step_harness(scratch, "ndebug"), [hmm], stdin_text="\n".join(ops) + "\n", timeout=900)
+    res = {"probs": [], "infos": [], "crash": None, "died": died, "bytes": len(out)}
+    if rc != 0:
+        last = next((l for l in reversed(out.split("\n")) if l.startswith("> ")), "?")
+        res["crash"] = {"exit_code": rc, "during": last, "stderr_tail": err[-1500:]}
+        return res
+    path = _driver[0] if _driver else vlib.driver_path()
+    r = subprocess.run([str(path), "c01s"], input=out.encode(), stdout=subprocess.PIPE, stderr=subprocess.PIPE, timeout=900)
+    if r.returncode != 0:
+        res["probs"].append(("model driver c01s failed", {"rc": r.returncode, "stderr": r.stderr.decode(errors="replace")[-500:]}))
+        return res
+    res["probs"], res["infos"] = judge_step_output(out, r.stdout.decode(errors="replace"))
+    return res
+
+
+def shrink_step_case(case, res, scratch):
+    """keep the failing utterance only and cut its audio right after the failing frame"""
+    p = next((p for p in res["probs"] if "after_frames" in p[1]), None)
+    if p is None:
+        return case
+    ti = int(p[1]["utt"][1:]) if p[1]["utt"][1:].isdigit() else 0
+    shift = int(case["config"].get("samprate", 16000)) // int(case["config"].get("frate", 100))
+    for keep_first in (False, True):
+        utts = [dict(u) for u in (case["utts"][:ti + 1] if keep_first else [case["utts"][ti]])]
+        # frames searched = frames of the front end; a few frames of slack for the window and the delta features
+        utts[-1]["maxsamp"] = (p[1]["after_frames"] + 8) * shift + 1024
+        small = dict(case, utts=utts)
+        try:
+            r2 = run_step_case(small, scratch, "stepshrink")
+        except Exception:
+            continue
+        if r2["probs"] and not r2["crash"]:
+            return small
+    return case
+
+
+def search_step_tie(c, thorough, replay_case=None):
+    """C01 growth stage: LexTreeOK on the dumped lextree, startRelB / stepRelB / searchInvB / evalHist3 on every
+    consecutive pair of states dumped from short decodes of the real decoder (harness/h_c01s.c, `ssdriver c01s`)."""
+    import time
+    t0 = time.time()
+    c.trusted += ["harness/h_c01s.c (dump of the lextree, of every HMM that is not in the cleared state, of the active list and "
+                  "of the new history entries after every frame; pnode identity = pointer identity among the alloc_head lists) "
+                  "+ the glue in tools/props/c01.py",
+                  "M10: that the relation StepRel covers fsg_search_step for EVERY input rests on reading the code; it is "
+                  "checked (stepRelB, proved sound) on every frame of the decodes of this run.  Two facts about scores are "
+                  "used and checked per frame, not proved: a word exit fires only from a live exit score (the word beam "
+                  "threshold stays above WORST_SCORE) and hmm_vit_eval gives a live score only to a state whose winning "
+                  "predecessor was live (proved for the exact 3-state evaluation evalHist3 under emission scores <= 0; "
+                  "5-state / arbitrary topologies are covered by the relation but not mirrored exactly)"]
+    rng = vlib.Rng(c.seed * 1000003 + 4242)
+    feats = {}
+    if replay_case is not None:
+        cases = [("replay", replay_case)]
+    else:
+        n = 10 if not thorough else 120
+        cases = [(f"s{i}", gen_step_case(rng, i, thorough, feats)) for i in range(n)]
+    results = {}
+
+    def work(item):
+        tag, cs = item
+        return tag, run_step_case(cs, c.scratch, tag)
+    with concurrent.futures.ThreadPoolExecutor(max_workers=4 if not thorough else 6) as ex:
+        for tag, r in ex.map(work, cases):
+            results[tag] = r
+    agg = {"cases": len(cases), "utterances": 0, "frames": 0, "entries": 0, "pnodes_max": 0, "grammar_rejected_or_crashed": 0,
+           "reruns_on_plain_flavour": 0, "dump_bytes": 0}
+    covsum, shapes, beams, audio_kinds = {}, {}, {}, {}
+    ok_all, ok_crash = True, True
+    reported = 0
+    for tag, cs in cases:
+        r = results[tag]
+        shapes[cs.get("shape", "?")] = shapes.get(cs.get("shape", "?"), 0) + 1
+        beams[cs.get("beam", "?")] = beams.get(cs.get("beam", "?"), 0) + 1
+        for u in cs["utts"]:
+            audio_kinds[u.get("kind", "?")] = audio_kinds.get(u.get("kind", "?"), 0) + 1
+        agg["dump_bytes"] += r["bytes"]
+        if r["died"]:
+            agg["reruns_on_plain_flavour"] += 1
+        if r["crash"]:
+            ok_crash = False
+            c.oblige(f"search-step tie: decode runs to completion ({tag})", False, r["crash"])
+            if reported < 2:
+                reported += 1
+                c.violation({"kind": "the library crashed / aborted / reported a sanitizer error while the search was stepped frame by frame",
+                             "search_step_case": cs, "crash": r["crash"],
+                             "how_to_rerun": "python3 tools/check.py C01 --replay <this file>"}, False, tag="stepcrash")
+            continue
+        for inf in r["infos"]:
+            agg["utterances"] += 1
+            agg["frames"] += inf["frames"] or 0
+            agg["entries"] += inf["entries"] or 0
+            agg["pnodes_max"] = max(agg["pnodes_max"], inf["pnodes"])
+            for k, v in inf["cov"].items():
+                covsum[k] = max(covsum.get(k, 0), v) if k == "maxActive" else covsum.get(k, 0) + v
+        if not r["infos"] and not r["probs"]:
+            agg["grammar_rejected_or_crashed"] += 1
+        if r["probs"]:
+            ok_all = False
+            if reported < 2:
+                reported += 1
+                small = shrink_step_case(cs, r, c.scratch) if replay_case is None else cs
+                rs = run_step_case(small, c.scratch, "stepshrunk") if small is not cs else r
+                pr = rs["probs"] or r["probs"]
+                c.violation({"kind": pr[0][0], "problems": [{"what": k, "detail": d} for k, d in pr[:4]],
+                             "search_step_case": small, "original_case_tag": tag,
+                             "note": "the per-frame behaviour of the real search left the step relation of Model/Search.lean "
+                                     "(or the lextree / an invariant predicate is false on a dumped state): either the code no "
+                                     "longer does what the model of the growth-stage theorems says, or the model is wrong",
+                             "how_to_rerun": "python3 tools/check.py C01 --replay <this file>"}, False, tag="step")
+    c.oblige("growth stage (M10), correspondence: on every short decode LexTreeOK holds on the dumped lextree, the state before "
+             "fsg_search_start is all-cleared, startRelB holds for start, stepRelB for EVERY frame, searchInvB on every state, "
+             "evalHist3 reproduces every evaluated HMM, finish = the model's finish, accumulated table = final table", ok_all)
+    c.oblige("growth stage (M10): every stepped decode ran to completion (no sanitizer report, assert, exit, timeout)", ok_crash)
+    never = [k for k in ("exits", "nulls", "startNulls", "dropped", "newly", "reentered", "self0", "fromParent", "fromEntry", "outKept",
+                         "outFrom", "innerSelf", "innerPrev", "deadStates", "evalExact") if not covsum.get(k)]
+    return {"search_step_tie": dict(agg, wall_s=round(time.time() - t0, 1), grammar_shapes=shapes, beam_settings=beams,
+                                    audio_kinds=audio_kinds, generated_grammar_features=feats,
+                                    clauses_of_the_relation_exercised=covsum, clauses_never_exercised=never)}
+
+
 # ---------------------------------------------------------------------------------------------
 # the check
 
@@ -869,6 +1192,11 @@ def run_check(c, prop):
                   "production of the history table by the token-passing search is observed per run (wfHistB on every "
                   "dumped table), not modelled",
                   "clang ASan/UBSan as observer of memory errors during the decodes"]
+    if prop == "C01":
+        # the growth stage (M10) models the production of the table; what stays trusted there is listed by search_step_tie
+        c.trusted = [t for t in c.trusted if not t.startswith("production of the history table")]
+        c.trusted.append("production of the history table: modelled by the step relation of Model/Search.lean (M10) and proved to "
+                         "keep WFHist (Props/C01Search.lean); wfHistB is still evaluated on every dumped table")
     c.assumptions += ["bestpath is compiled out (__FSG_ALLOW_BESTPATH__ = 0, regenerated constant): hyp/seg_iter take the "
                       "history-table branch", "scores stay inside int32 (the model computes in unbounded integers)",
                       "backtraces are shorter than 32768 entries (fsg_seg_t.n_hist is an int16)"]
@@ -882,6 +1210,7 @@ def run_check(c, prop):
     snapshot_driver(c.scratch)
     thorough = c.tier == "thorough"
     stats = {"audio": {}, "grammar": {}, "features": {}, "beam": {}, "rates": {}, "chunking": {}}
+    step_cov = search_step_tie(c, thorough) if prop == "C01" else {}
     cases = []
     for prop_dir in ("C01", "C03"):
         for f in sorted((vlib.ROOT / "corpus" / prop_dir).glob("*.json")):
@@ -1009,7 +1338,7 @@ def run_check(c, prop):
                   "findExit_branches_hit (dumps)": branches,
                   "findExit_branches_never_hit": [b for b in ALL_BRANCHES if b not in branches],
                   "acoustic_models": stats.get("model", {}), "audio_kinds": stats["audio"], "grammar_kinds": stats["grammar"], "grammar_features": stats["features"],
-                  "beam_settings": stats["beam"], "rate_settings": stats["rates"], "chunking_styles": stats["chunking"]})
+                  "beam_settings": stats["beam"], "rate_settings": stats["rates"], "chunking_styles": stats["chunking"], **step_cov})
 
 
 def check(c):
@@ -1021,6 +1350,10 @@ def replay_common(c, path, prop):
     binp = private_harnesses(c.scratch)
     snapshot_driver(c.scratch)
     obj = json.loads(open(path).read())
+    if "search_step_case" in obj:
+        cov = search_step_tie(c, False, replay_case=obj["search_step_case"])
+        c.cov.update({"evaluations": cov["search_step_tie"]["frames"], "distinct_nontrivial": cov["search_step_tie"]["frames"], **cov})
+        return
     cs = obj.get("case", obj)
     r = run_case(binp, cs, c.scratch, "replay", nframes_offset())
     probs = r["p1" if prop == "C01" else "p3"]
